@@ -60,6 +60,8 @@ func runC02(c *Ctx) {
 		"SPEC: MS-NLMP 3.3.1 (DESL key windows 0..6, 7..13, 14..15 + 5 zero bytes), 3.3.2 (NTOWFv2 upper-cases the user name only; NTProofStr = HMAC_MD5(ResponseKeyNT, ServerChallenge ‖ temp); response = NTProofStr ‖ temp), 2.2.2.7 (NTLMv2_CLIENT_CHALLENGE: 01 01 00×6, TimeStamp 8 LE, ChallengeFromClient 8, Reserved 4, AvPairs); hashcat mode 5600 line format user::domain:challenge:NTProofStr:blob",
 		"type-based aliasing; a slice header and its backing store are one cell",
 	}
+	r.Explanation += crySxExplain
+	r.Assumptions = append(r.Assumptions, crySxAssume, "when DESL is decided by evaluation, the NTHash field is taken to be 16 bytes (or empty, for Hash) and the ServerChallenge field 8 bytes long, as the constructors guarantee (lengths of caller-supplied values are listed under NOT decided)")
 	x := &c02{cry: newCry(c)}
 	x.w = prove.NewWorld(c.P)
 
@@ -850,6 +852,7 @@ func (x *c02) r1() {
 			x.R.Undecided(c02R1, name+": parameter roles", x.pos(fn.Pos()), why)
 		} else {
 			chal, pw := roleIdx(roles, "challenge"), roleIdx(roles, "password")
+			g := x.begin()
 			for i, want := range []struct {
 				l, other, what string
 			}{{x.e.Name(fLM), x.e.Name(fNT), "LM response = (*NTLMv1).LMResponse()"}, {x.e.Name(fNT), x.e.Name(fLM), "NT response = (*NTLMv1).NTResponse()"}} {
@@ -861,6 +864,9 @@ func (x *c02) r1() {
 					}, constsOnly)
 					x.verdict(c02R1, fmt.Sprintf("%s: result #%d %s", name, i, want.what), ret.Pos(), bad, und, trim(set.String(), 200))
 				}
+			}
+			if !g.clean() {
+				x.v1RespBySx(g, fn, chal, pw)
 			}
 		}
 	}
